@@ -99,6 +99,9 @@ def harness_parse(system: Any, obj: Any, fmt: str, processtypes: bool) -> Dict[s
     except Exception as e:
         res['gave_up'] = True
         res['why'] = 'to_stan raised %s: %s' % (type(e).__name__, e)
+        # a failure of the renderer is a problem of its own too, beside what the parser had recorded
+        res['internal'] = 'to_stan: ' + type(e).__name__
+        res['before'] = len(errs)
     return res
 
 
@@ -194,7 +197,7 @@ def _check_case(case: Dict[str, Any]) -> Tuple[List[Tuple[str, str]], Dict[str, 
         # an internal failure of the parser is reported as such, in addition to what the parser had recorded before it failed
         # (judged on the module that holds nothing but the function: every message there is about this docstring)
         if h_func.get('internal') and first is not None and len(first[1]) < h_func['before'] + 1:
-            out.append(('internal-failure-not-reported', 'm.func (%s): the parser recorded %d problem(s) and then failed with %s, but only %d message(s) were printed: %s; docstring %r' % (
+            out.append(('internal-failure-not-reported', 'm.func (%s): the parser recorded %d problem(s) and then parsing or rendering failed with %s, but only %d message(s) were printed: %s; docstring %r' % (
                 fmt, h_func['before'], h_func['internal'], len(first[1]), first[1][:3], trunc(doc, 200))))
         # a real run extracts the summary of an object (for the table of its parent) before it renders the body, and the search index
         # reads the docstring after both: what is shown and reported must not depend on which of them came first
